@@ -1221,7 +1221,6 @@ def work_chunk(args):
         it = dict(kind="base" if f[1] == "-" else "mutant", fault=f[1], site=int(f[2]), ast=ast, wfb=f[3] == "1", check=f[4], patched=f[5])
         it["src"] = render_main(ast)
         it["pywf"] = Spec(mod).wf(ast)
-        it["voidlist"] = has_void_list(ast)
         it["style"] = "plain"
         items.append(it)
         for st in STYLES_OF_FAULT.get(it["fault"], []):
@@ -1311,23 +1310,6 @@ def work_grid(args):
     return items
 
 
-def has_void_list(p):
-    """does the program build a list whose elements have no type: a list literal that starts with, or `verkettet` of two, calls
-    of functions that return nothing?  (defect of the frontend that the Coq model does not mirror: see the C04 report)"""
-    void = {d[2] for d in p[1][1:] if d[0] == "ifun" and d[4] == "none"} | {t[1] for t in p[3][1:] if t[0] == "fun" and t[3][1] == "none"}
-    isv = lambda e: isinstance(e, list) and e and e[0] == "call" and e[1] in void
-
-    def walk(n):
-        if not isinstance(n, list) or not n:
-            return False
-        if n[0] == "list" and isv(n[1]) and all(isv(x) for x in n[2:]):
-            return True
-        if n[0] == "bin" and n[1] == "cat" and isv(n[2]) and isv(n[3]):
-            return True
-        return any(walk(c) for c in n[1:])
-    return walk(p[3])
-
-
 def shrink(p, bad):
     """greedy removal of top-level items and statements while bad(p) stays true"""
     import copy
@@ -1402,7 +1384,7 @@ def main():
         fe = first_error(o) if o else None
         results.append(dict(kind="corpus", fault=c.get("name", fn), site=-1, ast=p, wfb=mv[1] == "1", check=mv[2], patched=mv[3], src=src,
                             pywf=Spec(mod).wf(p), obs=o, acc=accepted(o), code=fe["code"] if fe else None, line=fe["sl"] if fe else 0,
-                            dir=mdir, modtext=render_module(mod), idx=-1, expect=c.get("expect"), style=c.get("style", "plain"), voidlist=has_void_list(p)))
+                            dir=mdir, modtext=render_module(mod), idx=-1, expect=c.get("expect"), style=c.get("style", "plain")))
 
     # ---- 2. generated programs and all their mutants --------------------------------------------
     from concurrent.futures import ProcessPoolExecutor
@@ -1437,7 +1419,6 @@ def main():
     first_diag_tab = {}
     first_diag_bad = []
     n_base_ok = n_false_reject = 0
-    void_list_tolerated = 0
     mismatch = []
     viol_seen = {}
     acc_ill = [it for it in results if it["acc"] and not it["pywf"] and it["pywf"] == it["wfb"]]
@@ -1473,8 +1454,6 @@ def main():
         # the property: ill-formed => rejected
         if not specwf and it["acc"]:
             why = it["why"]
-            if not why and it.get("voidlist"):
-                why = "void_list"
             key = "accepted-ill-formed quirk=%s" % why if why else "accepted-ill-formed unexplained fault=%s%s" % (fault, "" if it.get("style", "plain") == "plain" else " rendering=" + it["style"])
             if key not in viol_seen:
                 ast = it["ast"]
@@ -1502,9 +1481,7 @@ def main():
                 # same mechanism again: let the known-findings filter see it, but do not store another replay
                 ck.violation(key, "", None)
         # correspondence algorithm model <-> implementation
-        if it.get("voidlist") and (model_acc != it["acc"] or (not it["acc"] and it["code"] not in EXPECT.get(it["check"].split(",")[0], set()))):
-            void_list_tolerated += 1        # the model has the repaired behaviour for lists of nothing
-        elif model_acc != it["acc"]:
+        if model_acc != it["acc"]:
             mismatch.append(it)
         elif not it["acc"] and it["check"] != "-":
             d0 = it["check"].split(",")[0]
@@ -1590,7 +1567,7 @@ def main():
         corpus=len(corpus), mutants=nm, per_fault=per_fault, first_error_codes={str(k): v for k, v in sorted(codes.items(), key=lambda kv: str(kv[0]))},
         first_diagnostic_model_vs_frontend={k: {str(c): n for c, n in v.items()} for k, v in first_diag_tab.items()},
         first_diagnostic_kind_disagreements=len(first_diag_bad), acceptance_disagreements_model_vs_frontend=len(mismatch),
-        model_variant_matching_the_frontend=dict(zip(QUIRKS, variant)), programs_with_a_list_of_nothing_not_compared_with_the_model=void_list_tolerated,
+        model_variant_matching_the_frontend=dict(zip(QUIRKS, variant)),
         kddp=kres, operator_grid=dict(cells=n_grid, **grid_stats),
         exhaustive="operator grid: every unary/binary operator and cast of the core x 10 operand kinds (6 primitive types, 2 list types, Kombination, call without result)%s" % ("" if ck.quick else " x 8 declared result types"),
         exhaustive_note="thorough: ALL single-fault mutants (20 classes, every site the injector of coq/Lang/MiniMutate.v finds) of every generated base program are run; quick: at most 250 per class and program, sampled; base programs are random",
